@@ -259,3 +259,41 @@ Proof.
   split; [apply init_ok_chansb_ok; vm_compute; reflexivity|].
   intros x Hx. cbn in Hx. repeat (destruct Hx as [<-|Hx]; [exact I|]). destruct Hx.
 Qed.
+
+(* ==== prv.c emit from source (unit prv) ==== *)
+(* Gen/Prv_gen.v is regenerated on every run by translate/units/prv.py from src/emu/pv/prv.c (is_value_dup, emit,
+   check_flags), statement by statement, over Emu/PrvPre.v (one registered channel: flags, last_value,
+   last_value_set, row, type; the value chan_read returns is an input; write_line appends (row_base1, type, value)).
+   PrvEmitProofs.Rel ps last k : the channel's last_value / last_value_set are the entry of the model's `last` map at the
+   key of the channel (unset <-> no entry).  For every flags word made of the five PRV_* bits, every null or int64
+   value and every state, the generated emit does what the model's emit does: both refuse (duplicate without
+   SKIPDUP/SKIPDUPNULL, forbidden 0 without PRV_ZERO; never a NULL dereference), or both accept, write the same
+   0 or 1 line (row + 1, type, value incremented under PRV_NEXT, 0 for null) and keep the relation with the
+   updated map.  VALUE_DOUBLE is refused by the C and does not exist in the model. *)
+From OV Require Emu.PrvPre Gen.Prv_gen Proofs.PrvEmitProofs.
+Theorem C06_prv_emit_from_source : forall e s n z d last cpu row type v ps,
+  PrvPre.rflags ps = PrvEmitProofs.mkflags e s n z d -> PrvPre.rrow ps = Z.of_nat row + 1 -> PrvPre.rtyp ps = type ->
+  PrvPre.cur ps = PrvEmitProofs.inj v -> PrvEmitProofs.Rel ps last (cpu, row, type) ->
+  match emit last cpu row type (PrvEmitProofs.mkflags e s n z d) v with
+  | Err _ => exists x, PrvPre.exec (Prv_gen.emit (Some tt) (Some tt)) tt ps = Err x /\ x <> PrvPre.E_TRAP
+  | Ok (last', ls) =>
+    exists ps', PrvPre.exec (Prv_gen.emit (Some tt) (Some tt)) tt ps = Ok ps' /\
+                PrvPre.plines ps' = PrvPre.plines ps ++ map PrvEmitProofs.out_line ls /\
+                PrvEmitProofs.Rel ps' last' (cpu, row, type) /\ PrvEmitProofs.same_chan ps' ps
+  end.
+Proof. exact PrvEmitProofs.emit_eq. Qed.
+Print Assumptions C06_prv_emit_from_source.
+
+(* every word below 32 is such a flags word *)
+Theorem C06_prv_flags_words : forall f, 0 <= f < 32 -> exists e s n z d, f = PrvEmitProofs.mkflags e s n z d.
+Proof. exact PrvEmitProofs.mkflags_range. Qed.
+Print Assumptions C06_prv_flags_words.
+
+Example C06_ex_prv_generated :
+  PrvEmitProofs.emit_twice PRV_SKIPDUP (Some 7) = Ok [(3, 10, 7)] /\
+  PrvEmitProofs.is_ok (PrvEmitProofs.emit_twice 0 (Some 7)) = false /\
+  PrvEmitProofs.emit_twice (PRV_EMITDUP + PRV_NEXT) (Some 7) = Ok [(3, 10, 8); (3, 10, 8)] /\
+  PrvEmitProofs.is_ok (PrvEmitProofs.emit_twice PRV_EMITDUP (Some 0)) = false /\
+  PrvEmitProofs.emit_twice (PRV_SKIPDUPNULL + PRV_ZERO) None = Ok [(3, 10, 0)].
+Proof. vm_compute. repeat split. Qed.
+(* ==== end of block (unit prv) ==== *)
